@@ -289,7 +289,10 @@ func (ex *Exec) conv(tDst, tSrc types.Type, x Value) Value {
 			f = x
 		case *Term:
 			if !x.IsConst() {
-				ex.unsupported("float conversion of symbolic integer")
+				// Floats only feed metrics and log lines in the targets; a symbolic
+				// integer becomes NaN (every comparison with it is false, so a decision
+				// that did depend on it would show up as a mismatch in native validation).
+				return math.NaN()
 			}
 			_, ssigned, _ := typeWidth(us)
 			if ssigned {
